@@ -15,6 +15,10 @@ type RunCtx struct {
 	Record    bool // keep decoded scenario + schedule (replay / samples)
 	TmpDir    string
 	Findings  map[string]bool // ids of findings listed open in known_findings.json for this property
+	// Isolated: this run has a process of its own (the code under test keeps goroutines
+	// alive across calls). Goroutines still blocked when the run ends are then expected
+	// (an idle worker pool) and cannot be told from a lost send: that one clause is not judged.
+	Isolated bool
 }
 
 // Prop is one claimed property: how many runs per tier, and how to execute one.
